@@ -486,12 +486,13 @@ func (w *World) builtin(g *G, fr *Frame, name string, args []Value, c *ssa.CallC
 		w.chanClose(g, ch.c, func() { fin(nil) })
 	case "recover":
 		var res Value = Iface{}
-		if fr.rec != nil && !fr.rec.fr.recovered && fr.rec.p != nil {
-			fr.rec.fr.recovered = true
-			if fr.rec.p.val != nil {
-				res = fr.rec.p.val
+		if fr.rec != nil && fr.rec.fr.pan != nil {
+			p := fr.rec.fr.pan
+			fr.rec.fr.pan = nil
+			if p.val != nil {
+				res = p.val
 			} else {
-				res = Iface{t: types.Typ[types.String], v: w.strConst(fr.rec.p.msg)}
+				res = Iface{t: types.Typ[types.String], v: w.strConst(p.msg)}
 			}
 		}
 		fin(res)
